@@ -131,7 +131,10 @@ fn tc_config(small_hashes: Option<usize>) -> tc::Config {
                 StorageSlots::new(),
                 MappingOffset::new(),
             ]);
-            tc::Config::default().with_lifting_passes(passes)
+            tc::Config {
+                lifting_passes:  passes,
+                inference_rules: tc::rule::InferenceRules::default(),
+            }
         }
     }
 }
